@@ -590,6 +590,15 @@ func (h *hist) c05Check(op Op, out Outcome, st *c05State) bool {
 		h.violate("alignment", "tape length %d is not a multiple of 512", len(after))
 		return false
 	}
+	if out.OK && len(after) > len(st.before) {
+		// a successful call that appended leaves a complete tar archive behind: its last member is followed by the end-of-archive
+		// marker (two zero blocks) - a tape that stops right behind a member is what a writer that was interrupted leaves
+		if len(after) < 1024 || !allZero(after[len(after)-1024:]) {
+			h.violate("no-end-of-archive-marker", "the call appended %d bytes that do not end with the end-of-archive marker (two zero blocks)", len(after)-len(st.before))
+			return false
+		}
+		h.res.count("appending_calls_checked_for_the_end_of_archive_marker", 1)
+	}
 	recs, _, err := ScanTape(after, h.cfg, &cryptoView{EncIdentity: h.rig.RC.Identity})
 	if err != nil {
 		h.violate("scan", "an independent tar reader cannot iterate the tape: %v", err)
@@ -1237,12 +1246,12 @@ func seqRun(prop, tier string, c Case, w *Worker) (res Result) {
 
 func init() {
 	register(&Engine{Name: "seqhist", Props: []string{"C01", "C02", "C04", "C05", "C07", "C12", "C13"}, Cases: seqCases, Run: seqRun})
-	histRule := "one generated call history per case on a fresh instance (name universe with SQL wildcards, dots, spaces, non-ASCII, >100-byte and codec-looking components; reuse of names forced; contents from the size classes around block and record boundaries); the monitor runs after every call; non-trivial = at least 3 successful mutating calls and at least 4 records on the tape; distinct = distinct (configuration, call list); one batched Archive call in 8 (and one Update call in 8, which then is a batch of 2-3 files) has a member whose source cannot be opened when its turn comes: the call fails part-way, what it completely wrote before must be on the tape (block aligned, iterable) AND in the index, nothing of the rest"
+	histRule := "one generated call history per case on a fresh instance (name universe with SQL wildcards, dots, spaces, non-ASCII, >100-byte and codec-looking components; reuse of names forced; contents from the size classes around block and record boundaries); the monitor runs after every call; non-trivial = at least 3 successful mutating calls and at least 4 records on the tape; distinct = distinct (configuration, call list); one batched Archive call in 8 (and one Update call in 8, which then is a batch of 2-3 files) has a member whose source cannot be opened; one Update call in 6 is a replacing update of a directory (a header-only record) when its turn comes: the call fails part-way, what it completely wrote before must be on the tape (block aligned, iterable) AND in the index, nothing of the rest"
 	propMeta["C02"] = PropMeta{Level: "exploration", Rule: histRule + "; C02 monitor: outcome, returned data and full tree (kinds, sizes, contents, permission bits, owners, timestamps) against a POSIX reference model that is itself validated against afero.OsFs; plus the composite call 'latewrite' (a handle is opened and left idle, another handle rewrites the file and closes, the idle handle then writes and closes: shared-file semantics of the reference) and the composite call 'lateattr' (a handle is opened, the entry's mode / owner is changed through the filesystem, the handle then writes and closes: the flush must keep the new attributes), one sparse file of more than 2^31 bytes, and in a fifth of the histories every 1st-4th call is made by a NEW instance over the same tape and index (restart)",
 		Assumptions: []string{"reference-ambiguous shapes (rename of a directory onto an empty directory or onto itself, RemoveAll through a file) accept either outcome", "op shapes of the open findings listed in KNOWN_FINDINGS.txt are generated only by their dedicated witness cases", "symlinks and operations on the root itself are outside the generator"}}
 	propMeta["C01"] = PropMeta{Level: "exploration", Rule: histRule + "; C01 monitor: tree+content through (a) a fresh instance over a copy of the index and (b) a fresh instance that rebuilds the index from a copy of the tape alone, both equal to the live instance after every call; histories include symlinks and batched Archive/Update/Delete/Move; exotic histories also set times with years 2..9999 and in zones whose offset has seconds, entries carry the full time where int64 nanoseconds cannot",
 		Assumptions: []string{"'fresh process' is approximated by a fresh object graph in the same process over copies of the files; File.Name() is not part of the compared tree"}}
-	propMeta["C05"] = PropMeta{Level: "exploration", Rule: histRule + "; C05 monitor: byte-prefix test of the drive file around every call, failing calls append nothing (except the complete records of a batch that fails part-way), length multiple of 512, independent archive/tar scan restarting after each trailer, member bytes == file content for uncompressed+unencrypted configurations; at the end of each history GNU tar (`tar -i -tf`) must list the tape without error and find as many members as the scan found records; in two thirds of the histories every fifth call runs while the operating system refuses the drive (its directory is missing, or the path is a directory), overwriting managers included; witness of the open finding rsa-recipient-size-mismatch: 1500 small writes for an OpenPGP recipient with an RSA key",
+	propMeta["C05"] = PropMeta{Level: "exploration", Rule: histRule + "; C05 monitor: byte-prefix test of the drive file around every call, failing calls append nothing (except the complete records of a batch that fails part-way), length multiple of 512, every successful appending call ends with the end-of-archive marker (two zero blocks), independent archive/tar scan restarting after each trailer, member bytes == file content for uncompressed+unencrypted configurations; at the end of each history GNU tar (`tar -i -tf`) must list the tape without error and find as many members as the scan found records; in two thirds of the histories every fifth call runs while the operating system refuses the drive (its directory is missing, or the path is a directory), overwriting managers included; witness of the open finding rsa-recipient-size-mismatch: 1500 small writes for an OpenPGP recipient with an RSA key",
 		Assumptions: []string{"explicit overwrite/initialise calls are not part of the histories (they are the stated exception)"}}
 	propMeta["C13"] = PropMeta{Level: "exploration", Rule: histRule + "; C13 monitor: live index rows == entries reachable by listing, parent is a live directory, Readdir(-1) == children exactly once, Readdirnames == Readdir names, Readdir(n) for n in {0,1,2,|c|-1,|c|,|c|+1} within bounds and within the children, every listed name stat-able and openable with matching kind and size; up to three directory handles are kept open across calls and have to list what is there now; histories include Operations.Archive / Update / Delete / Move",
 		Assumptions: []string{"symlinks are outside this generator"}}
@@ -1291,4 +1300,13 @@ func shapeCases(prop, tier string, cfgs []Cfg) []Case {
 		out = append(out, Case{ID: fmt.Sprintf("%s-deep-%d", strings.ToLower(prop), d), Seed: uint64(d), Kind: "random", P: pb})
 	}
 	return out
+}
+
+func allZero(b []byte) bool {
+	for _, x := range b {
+		if x != 0 {
+			return false
+		}
+	}
+	return true
 }
